@@ -156,11 +156,13 @@ def gen_case(rng, k):
     n = info["n"]
     for a in rng.sample(sorted(c09.ATTRS), rng.randint(0, 5)):
         g = c09.ATTRS[a]
-        sh = rng.choice(["scalar", "percol", "matrix"])
+        sh = rng.choice(["scalar", "percol", "matrix", "pattern"])
         if a in ("cell_height", "cell_justification"):
             sh = "scalar"
+        # "pattern": a matrix with fewer rows than the table, recycled row-wise by the library (accepted at construction)
+        nr = max(n, 1) if sh == "matrix" else rng.randint(2, max(2, min(5, n - 1))) if n > 2 else max(n, 1)
         body[a] = g(rng) if sh == "scalar" else [g(rng) for _ in range(ncols)] if sh == "percol" else \
-            [[g(rng) for _ in range(ncols)] for _ in range(max(n, 1))]
+            [[g(rng) for _ in range(ncols)] for _ in range(nr)]
     if rng.random() < 0.3:
         body["text_font_size"] = rng.choice([7.5, 8.5, 9.5, 10.5])
     # cell kinds
